@@ -849,6 +849,15 @@ mod os {
         formatted
     }
 
+    // The numbers 0..=2 belong to the child's standard streams once they
+    // are installed: a redirection file that happens to sit on one of them
+    // must not close it when its last reference goes away.
+    fn forget_if_std(file: Rc<File>) {
+        if file.as_raw_fd() <= 2 {
+            std::mem::forget(file);
+        }
+    }
+
     trait PopenOsImpl: super::PopenOs {
         fn do_exec(
             just_exec: impl FnOnce() -> io::Result<()>,
@@ -875,35 +884,41 @@ mod os {
             }
 
             let (stdin, stdout, stderr) = child_ends;
+            // When the parent has closed some of its own standard
+            // descriptors, the file meant for one stream can sit on the
+            // number of a stream installed before it, and would be
+            // overwritten there: move it out of the way first.
+            let mut stdout_fd = stdout.as_ref().map(|f| f.as_raw_fd());
+            let mut stderr_fd = stderr.as_ref().map(|f| f.as_raw_fd());
+            if stdin.is_some() && stdout_fd == Some(0) {
+                stdout_fd = Some(posix::dup_above_std(0)?);
+            }
+            if (stdin.is_some() && stderr_fd == Some(0)) || (stdout.is_some() && stderr_fd == Some(1)) {
+                stderr_fd = Some(posix::dup_above_std(stderr_fd.unwrap())?);
+            }
             if let Some(stdin) = stdin {
                 if stdin.as_raw_fd() != 0 {
                     posix::dup2(stdin.as_raw_fd(), 0)?;
                 } else {
                     posix::clear_cloexec(0)?;
-                    // The descriptor already is the child's stdin: it must
-                    // not be closed when this last reference goes away.
-                    std::mem::forget(stdin);
                 }
+                forget_if_std(stdin);
             }
             if let Some(stdout) = stdout {
-                if stdout.as_raw_fd() != 1 {
-                    posix::dup2(stdout.as_raw_fd(), 1)?;
+                if stdout_fd != Some(1) {
+                    posix::dup2(stdout_fd.unwrap(), 1)?;
                 } else {
                     posix::clear_cloexec(1)?;
-                    // The descriptor already is the child's stdout: it must
-                    // not be closed when this last reference goes away.
-                    std::mem::forget(stdout);
                 }
+                forget_if_std(stdout);
             }
             if let Some(stderr) = stderr {
-                if stderr.as_raw_fd() != 2 {
-                    posix::dup2(stderr.as_raw_fd(), 2)?;
+                if stderr_fd != Some(2) {
+                    posix::dup2(stderr_fd.unwrap(), 2)?;
                 } else {
                     posix::clear_cloexec(2)?;
-                    // The descriptor already is the child's stderr: it must
-                    // not be closed when this last reference goes away.
-                    std::mem::forget(stderr);
                 }
+                forget_if_std(stderr);
             }
             posix::reset_sigpipe()?;
 
